@@ -101,6 +101,17 @@ instance : BEq JVal := ⟨beq⟩
 
 end JVal
 
+instance {ε α : Type} [DecidableEq ε] [DecidableEq α] : DecidableEq (Except ε α) := fun a b =>
+  match a, b with
+  | .ok x, .ok y => if h : x = y then isTrue (by rw [h]) else isFalse (by intro e; injection e; contradiction)
+  | .error x, .error y => if h : x = y then isTrue (by rw [h]) else isFalse (by intro e; injection e; contradiction)
+  | .ok _, .error _ => isFalse (by intro e; cases e)
+  | .error _, .ok _ => isFalse (by intro e; cases e)
+
+@[simp] theorem ok_bind {ε α β : Type} (a : α) (f : α → Except ε β) : (Except.ok a >>= f) = f a := rfl
+@[simp] theorem error_bind {ε α β : Type} (e : ε) (f : α → Except ε β) :
+    ((Except.error e : Except ε α) >>= f) = Except.error e := rfl
+
 /-- Object member lookup by exact (case-sensitive) key; the LAST occurrence wins, as in Go's
 decoders (probed: `{"id":1,"id":2}` decodes to id 2). -/
 def lookup (k : Bytes) : List (Bytes × JVal) → Option JVal
